@@ -48,6 +48,7 @@ pub fn run_h(cfg: &str, preds: &str, ops: &str, oracle: &str, fails: &mut Vec<(S
     let mut models = vec![];
     let mut built = vec![];
     let mut errs = vec![];
+    let flags: Vec<bool> = preds.split('!').map(|sp| sp.rsplit_once('^').map_or(true, |(_, f)| f.starts_with('1'))).collect();
     for (k, spec) in preds.split('!').enumerate() {
         let (m, r) = build_pred(spec);
         let Some(m) = m else { return "bad-case".into() };
@@ -63,7 +64,7 @@ pub fn run_h(cfg: &str, preds: &str, ops: &str, oracle: &str, fails: &mut Vec<(S
     if !errs.is_empty() {
         return errs.join(",");
     }
-    crate::sent::run_hist(&built, &models, ops, oracle, fails)
+    crate::sent::run_hist(&built, &models, &flags, ops, oracle, fails)
 }
 
 /// C01 oracle on the final sentence: scores = brute-force spec, label = (score > 0), nothing unknown
